@@ -106,7 +106,7 @@ impl Storage {
     // GATE (C03/C09: "every block after the script's own recorded block number is examined"): the scripts a batch of filters
     // is matched against are asked for with a bound that covers the whole batch
     #[verifier::external_body]
-    pub fn get_scripts_hash(&self, block_number: u64) -> (r: Vec<Byte32>) requires scripts_cover_ok(block_number) ensures r == self.s_scripts_hash(block_number) { unimplemented!() }
+    pub fn get_scripts_hash(&self, block_number: u64) -> (r: Vec<Byte32>) requires scripts_cover_ok(block_number) /*props:C03,C09,C04*/ ensures r == self.s_scripts_hash(block_number) { unimplemented!() }
     pub uninterp spec fn s_scripts_hash(&self, block_number: u64) -> Vec<Byte32>;      // hashes of the scripts recorded below block_number (body: unit storage_meta)
     // GATES
     #[verifier::external_body]
